@@ -42,10 +42,12 @@ def gen_pair_tissue(r, cm, t1, t2):
     nested = reversed_pair(t1, t2) and r.randint(0, 2) != 0
     shapes = ["ico0", "octa", "tetra", "cube"]
     lmin = scale * r.uniform(0.2, 0.8)
-    cadh = lmin * (10.0 ** r.uniform(math.log10(0.05), math.log10(3.0)))
-    crep = lmin * (10.0 ** r.uniform(math.log10(0.05), math.log10(3.0)))
+    cadh = scale * (10.0 ** r.uniform(math.log10(0.03), math.log10(1.6)))
+    crep = scale * (10.0 ** r.uniform(math.log10(0.03), math.log10(1.6)))
     if r.randint(0, 3) == 0:
         crep = cadh
+    if t1 == 0 and t2 == 0 and r.randint(0, 1):
+        cadh = scale * r.uniform(0.5, 1.8)        # node-node couplings need an adhesion cut-off of the order of the node spacing
     pad = max(cadh, crep)
     off = [r.choice([0.0, r.uniform(-3, 3) * scale, r.uniform(-300, 300) * scale]) for _ in range(3)]
     if nested:
@@ -63,7 +65,7 @@ def gen_pair_tissue(r, cm, t1, t2):
         R1 = scale * r.uniform(0.5, 1.2)
         d = [r.normal() for _ in range(3)]
         n = math.sqrt(sum(x * x for x in d)) or 1.0
-        lam = r.choice([r.uniform(0.25, 1.0), r.uniform(0.7, 1.15), r.uniform(0.9, 1.0 + 1.5 * pad / (R1 + R2))])
+        lam = r.choice([r.uniform(0.2, 0.9), r.uniform(0.6, 1.05), r.uniform(0.8, 1.0 + 1.2 * pad / (R1 + R2))])
         D = (R1 + R2) * lam * 0.8
         ctr = [off[j] + d[j] / n * D for j in range(3)]
         pts1, f1 = cc.place(r.choice(shapes), ctr, [R1] * 3, cc.rot_matrix(r))
@@ -142,8 +144,9 @@ def dot(u, v):
     return u[0] * v[0] + u[1] * v[1] + u[2] * v[2]
 
 
-def pair_oracle(cm, t, r):
-    """the property restated on one (node, face) pair; returns None or a failure text"""
+def pair_oracle(cm, t, r, tags=None):
+    """the property restated on one (node, face) pair; returns None or a failure text (tags: which clauses were exercised)"""
+    tags = tags if tags is not None else {}
     Fn, F1, F2, F3 = r.F
     allF = Fn + F1 + F2 + F3
     if any(math.isnan(x) or math.isinf(x) for x in allF):
@@ -168,6 +171,7 @@ def pair_oracle(cm, t, r):
     gl = math.sqrt(max(d2, 0.0))
     # range
     if d2 > maxc * maxc * (1 + eps):
+        tags["beyond_cutoff"] = tags.get("beyond_cutoff", 0) + 1
         if mag != 0.0:
             return "a contact force is applied at distance %.6g, beyond both cut-offs (adhesion %.6g, repulsion %.6g)" % (gl, t.cadh, t.crep)
         if fired:
@@ -181,6 +185,7 @@ def pair_oracle(cm, t, r):
                 "adhesion" if adhesive else "repulsion", gl, "adhesion" if adhesive else "repulsion", cut)
     # couplings
     if fired:
+        tags["coupling"] = tags.get("coupling", 0) + 1
         if r.t1 != 0 or r.t2 != 0:
             return "a coupling is created between a %s node and a %s face" % (cc.TYPE_NAMES[r.t1], cc.TYPE_NAMES[r.t2])
         if idx not in (1, 2, 3):
@@ -195,6 +200,7 @@ def pair_oracle(cm, t, r):
             return "the call that created a coupling also applied a force"
     # direction: whatever is applied moves the node towards the closest point of the face and the face towards the node
     if mag != 0.0 and gl > 0:
+        tags["direction"] = tags.get("direction", 0) + 1
         tol = 1e-9 * gl * math.sqrt(dot(Fn, Fn))
         if -dot(Fn, gapv) < -tol:
             return "the force on the node points away from the closest point of the face (F.(cpa-p) = %g)" % (-dot(Fn, gapv))
@@ -212,6 +218,7 @@ def pair_oracle(cm, t, r):
             inside = inside and d2 < maxc * maxc * (1 - eps)
         rep = r.rep1 if cm == 0 else r.rep0
         if inside and rep > 0 and r.area > 0:
+            tags["forbidden_side_%s" % ("outside" if rev else "inside")] = tags.get("forbidden_side_%s" % ("outside" if rev else "inside"), 0) + 1
             k = rep * r.area
             exp_n = [-gapv[j] * k for j in range(3)]
             tolF = 1e-7 * k * gl
@@ -291,10 +298,11 @@ def run(ctx):
     widen = 3 if not proof["ok"] else 1
     reps = (2 if tier == "quick" else 14) * widen
     ntis = (14 if tier == "quick" else 90) * widen
-    stats = {"pair_tissues": 0, "pairs": 0, "pairs_with_force": 0, "pairs_coupled": 0, "pairs_forbidden_side_checked": 0,
+    stats = {"pair_tissues": 0, "pairs": 0, "pairs_with_force": 0, "pairs_coupled": 0, 
              "model_bit_identical": 0, "model_close": 0, "model_disagreements": 0, "oracle_failures": 0, "crashes": 0,
              "run_tissues": 0, "run_nonzero_nodes": 0}
     combos, per_model, samples, rebuilt_total, lines_seen = {}, {}, [], 0, set()
+    tags = {}
     for cm in (0, 1, 2):
         exe, rebuilt = cc.build(cm)
         rebuilt_total += rebuilt
@@ -341,7 +349,7 @@ def run(ctx):
             fired, idx, dist = coupling_created(cm, rec)
             stats["pairs_with_force"] += 1 if mag != 0.0 else 0
             stats["pairs_coupled"] += 1 if fired else 0
-            msg = pair_oracle(cm, t, rec)
+            msg = pair_oracle(cm, t, rec, tags)
             if msg:
                 nfail += 1
                 stats["oracle_failures"] += 1
@@ -409,7 +417,7 @@ def run(ctx):
         "rule": "per contact model: %d x 25 type combinations of two cells (tetrahedra/octahedra/icosahedra/cubes; side by side at generated overlaps, or nested for the reversed combinations), "
                 "scales 1e-6..10, offsets up to 300 sizes, cut-offs 0.05..3 l_min, strengths 1e-2..1e2, coupling pre-states (models 1/2), up to 160 (node, face) pairs each; "
                 "plus whole-run tissues of the C06 generator; distinct = distinct request lines" % reps,
-        "type_combinations": combos, "per_model": per_model, "totals": stats, "repo_objects_rebuilt": rebuilt_total, "samples": samples,
+        "type_combinations": combos, "oracle_clauses_exercised": tags, "per_model": per_model, "totals": stats, "repo_objects_rebuilt": rebuilt_total, "samples": samples,
     }
     vlib.write_evidence(PID, tier, "proof", cov, [
         "exact arithmetic in the theorems; tolerances of the run-time oracle: 1e-12 of the sum of magnitudes (reciprocity), 1e-9 relative on cut-offs, 1e-7 / 1e-6 relative on the expected forbidden-side force",
